@@ -482,9 +482,24 @@ ConfEvent(st, ev) ==
 \* state tracked across recorded histories: the logged post-state (re-synchronisation)
 NextTracked(st, ev) == IF ev.op \in LaxOps /\ "post" \in DOMAIN ev.obs THEN ev.obs.post ELSE st
 
+\* class of a non-conforming event: named predicates evaluated by the specification (used in the
+\* VIOLATION line, the replay file name and the known-findings file)
 Classify(ev) ==
-  IF ev.obs.tag = "panic" THEN "panic"
-  ELSE IF ev.obs.tag = "unknown_op" THEN "unknown-op"
-  ELSE IF ev.op \in {"lax.quotient", "lax.h.quotient", "lax.quotient_witness"} /\ ev.obs.tag = "err" THEN "err-state-changed-or-unexpected"
-  ELSE "wrong-" \o ev.obs.tag
+  LET o == ev.obs  a == ev.args IN
+  IF o.tag = "panic" THEN "panic"
+  ELSE IF o.tag = "unknown_op" THEN "unknown-op"
+  ELSE IF ev.op \in {"strict.compose", "strict.compose_shr"} THEN
+         (IF o.tag = "none" THEN "refused-although-types-agree"
+          ELSE IF ~Composable(Abs(a.f), Abs(a.g)) THEN "accepted-although-types-differ"
+          ELSE IF ~WFStrict(o.val) THEN "ill-formed-result"
+          ELSE "not-the-gluing")
+  ELSE IF ev.op \in {"lax.quotient", "lax.h.quotient", "lax.quotient_witness"} /\ HasPre(a) THEN
+         (IF o.tag = "err" /\ LaxConsistent(a.pre) THEN "failed-although-consistent"
+          ELSE IF o.tag = "err" THEN "failed-quotient-changed-the-diagram"
+          ELSE IF ~LaxConsistent(a.pre) THEN "succeeded-although-labels-conflict"
+          ELSE IF ~IsQuotientMap(a.pre, o.val) THEN "wrong-fibres"
+          ELSE "wrong-post-state")
+  ELSE IF ev.op \in {"strict.layer"} /\ o.tag = "val" THEN
+         (IF \E v \in 1 .. Len(o.val.unvisited) : (o.val.unvisited[v] = 1) # (v \in Blocked(NE(Abs(a.f)), Dep(Abs(a.f)))) THEN "wrong-visited-flags" ELSE "wrong-layers")
+  ELSE "wrong-" \o o.tag
 =============================================================================
